@@ -34,7 +34,7 @@ def _skip_string(s: str, i: int) -> int:
     return len(s)
 
 
-def _scan_field(s: str, i: int, out: list, fam: set) -> int:
+def _scan_field(s: str, i: int, out: list, fam: set, raw: bool = False) -> int:
     """s[i] == '{' opening a replacement field; appends the rewritten field, returns index after '}'"""
     depth, j = 0, i + 1
     expr_start = j
@@ -43,6 +43,10 @@ def _scan_field(s: str, i: int, out: list, fam: set) -> int:
         c = s[j]
         if c in "'\"":
             j = _skip_string(s, j)
+            continue
+        if c == "#":                      # a comment inside a multi-line field runs to the end of its line
+            e = s.find("\n", j)
+            j = len(s) if e < 0 else e
             continue
         if c in "([{":
             depth += 1
@@ -78,6 +82,12 @@ def _scan_field(s: str, i: int, out: list, fam: set) -> int:
         spec = []
         while k < len(s):
             c = s[k]
+            if c == "\\" and not raw and s.startswith("\\N{", k):
+                fam.add("named_escape")
+                e = s.find("}", k)
+                spec.append("N")
+                k = len(s) if e < 0 else e + 1
+                continue
             if c == "{" and not s.startswith("{{", k):
                 # nested replacement field
                 fam.add("nested_spec")
@@ -104,10 +114,10 @@ def _scan_field(s: str, i: int, out: list, fam: set) -> int:
                 continue
             if c == "}":
                 break
-            if c == "\n":
+            if c in "\r\n":
                 fam.add("multiline_spec")
                 spec.append(" ")
-                k += 1
+                k += 2 if s.startswith("\r\n", k) else 1
                 continue
             spec.append(c)
             k += 1
@@ -154,7 +164,7 @@ def _rewrite_fstring(lit: str, fam: set) -> str:
             out.append(body[j: j + 2])
             j += 2
         elif c == "{":
-            j = _scan_field(body, j, out, fam)
+            j = _scan_field(body, j, out, fam, raw)
         elif not c.isascii():
             fam.add("nonascii")
             out.append("e")
@@ -171,7 +181,7 @@ def neutralise(src: str) -> tuple[str, set]:
         toks = list(tokenize.generate_tokens(io.StringIO(src).readline))
     except (tokenize.TokenError, SyntaxError, IndentationError):
         return src, fam
-    lines = src.splitlines(keepends=True)
+    lines = io.StringIO(src).readlines()          # exactly the lines the tokenizer was given (split at LF only)
     off = [0]
     for ln in lines:
         off.append(off[-1] + len(ln))
